@@ -19,7 +19,7 @@ func init() {
 	plans["C03"] = func(tier string) []phase {
 		ps := []phase{
 			{Name: "corpus", Shards: jobs},
-			{Name: "extreme", Shards: 19, MemCap: 12 << 30, Timeout: 30 * time.Minute} /* one child per ladder of extremeLadders */,
+			{Name: "extreme", Shards: 19, MemCap: 12 << 30, Timeout: map[bool]time.Duration{false: 6 * time.Minute, true: 30 * time.Minute}[tier == "thorough"]} /* one child per ladder of extremeLadders */,
 		}
 		if tier == "thorough" {
 			ps = append(ps, phase{Name: "race-corpus", Shards: jobs, Race: true, Env: []string{"GORACE=halt_on_error=1"}})
